@@ -40,6 +40,9 @@ type Cfg struct {
 	MaxStake         uint64 // MaxStakes for every role (stake units)
 	Pool             int64  // genesis balance of the rewards pool account (subsidies): well funded, nearly dry or empty
 	GasLimit         uint64 // genesis block gas limit (8 000 000; 100 000 = a block that holds four transfers)
+	// StartV4: genesis runs protocol version 4, whose table approves the upgrade to version 5 with scaled voting
+	// parameters: proposal in block 1, switch of the header version in block 3, version-5 parameters from block 11 on
+	StartV4 bool
 }
 
 // DefaultCfg is the table of Appendix B.
@@ -99,6 +102,14 @@ func Install(c Cfg) {
 	v5.ExpelledRoundForDoubleSign = 8
 	v5.StakeLookBack = 4 // blocks are imported one at a time (Appendix B)
 	params.Versions[params.YouV5] = v5
+	if c.StartV4 {
+		v4 := v5.DeepCopy()
+		v4.Version = params.YouV4
+		v4.ApprovedUpgradeVersion = params.YouV5
+		v4.UpgradeVoteRounds, v4.UpgradeThreshold, v4.MinUpgradeWaitRounds, v4.MaxUpgradeWaitRounds = 2, 2, 0, 3
+		v4.InactivityPenaltyWaitRounds = 0
+		params.Versions[params.YouV4] = v4
+	}
 }
 
 // Params returns the installed table.
@@ -249,6 +260,9 @@ func NewWorldEngine(engA ChainEngine) *World {
 	}
 	w.Genesis = &core.Genesis{NetworkId: params.NetworkIdForTestCase, GasLimit: installedCfg.GasLimit, Alloc: alloc, Validators: vals,
 		CurrVersion: params.YouV5}
+	if installedCfg.StartV4 {
+		w.Genesis.CurrVersion = params.YouV4
+	}
 	w.A, w.B = newNode(w.Genesis, engA), newNode(w.Genesis, nil)
 	return w
 }
@@ -288,6 +302,9 @@ type ABlock struct {
 	// Rg > 0: before the importing node gets this block it is shown a sibling branch that replaces its last Rg blocks, so
 	// that this block makes it switch back and re-adopt them (C06)
 	Rg int `json:"rg,omitempty"`
+	// Batch (on the first block of a history): the importing node gets the blocks in batches of this many per InsertChain
+	// call (-1 = the whole chain in one call; 0 or 1 = one block at a time)
+	Batch int `json:"batch,omitempty"`
 }
 
 // AEv is an abstract double-sign evidence against validator V for round = parent height + D, handed to the builder's
